@@ -245,7 +245,7 @@ func (g *exprGen) call(d int) string {
 func (g *exprGen) arg(fn string, i int, d int) string {
 	switch {
 	case fn == "repeat" && i == 1:
-		return fw.Pick(g.r, []string{"0", "1", "2", "3", "8", "-1", "foo"})
+		return fw.Pick(g.r, []string{"0", "1", "2", "3", "8", "-1", "zed"}) // never a context number (foo can be 1234567.891: a 12 MB result)
 	case (fn == "foreach" || fn == "foreach_value" || fn == "filter") && i == 1:
 		if g.r.Chance(0.6) {
 			return fw.Pick(g.r, []string{"upper", "text", "number", "json", "(x) => x", "(x) => x & \"!\"", "(x) => x > 1", "(x, y) => x & y", "text_length", "is_error", "has_text", "(x) => x.value", "(x) => -x"})
